@@ -297,6 +297,10 @@ func suiteDocument(r *Rng, n int, thorough bool, o *Out) {
 					if other := ts[r.IntN(len(ts))]; other.backed && other.typ.Name != st.typ.Name {
 						mst = other
 						mixedTyped = true
+						// outside WrapperCollection's documented contract ("only resources of
+						// that type can be added"): Include trusts GetType(), so the pair rule
+						// of C03 is not demanded of such a collection
+						uniquePrimary = false
 						o.stat("data.WrapperCollection-mixed")
 					}
 				}
